@@ -362,6 +362,9 @@ mutual
         | .access _ r =>
           let h ← resolveRef f r
           if h.isArr then rtErr t .arrayDirect
+          -- the reference is resolved a second time here (the value checked above came from the first evaluation):
+          -- the variable that is actually bound must have the parameter's type as well
+          else if h.ty != pty then rtErr t .invalidArgs
           else
             let c ← locIsConst h.loc
             bindParams f t ps es vs ({ name := pn, ty := h.ty, isConst := c, val := .none, ref := some h.loc } :: acc)
